@@ -26,7 +26,7 @@ CLAIMED = {
  'C05': ('Lean 4 proof: table theorems by decide +kernel on the regenerated unit table vs an independent SI spec + field laws for conversion and comparison',
          'factor_matches_SI / unit_names_match_SI (every unit of every kind against first-principles SI definitions), gen_good, conversion laws, cmp_unit_blind / cmp_distinct_partial / eq_symm_partial; the relative-tolerance statement is false of the code (K1 witness theorems). Tie: exhaustive unit pairs x magnitudes on both sides, including CPython reflected comparison dispatch.'),
  'C06': ('Lean 4 proof: finite kind skeleton (case analysis) + SI congruence (field reasoning); exhaustive cell-by-cell correspondence',
-         'binop_kind (all 14x14x4 cells), add_si/mul_si/div_si/div_num_si, qty_add_sub_cancel, sub_antisymm; subtraction proved with exactly the two K2 call sites excluded and the negation proved by witness. Tie: every cell x units x magnitudes on both sides.'),
+         'binop_kind (all 14x14x4 cells), add_si/mul_si/div_si/div_num_si/div_num_ne_zero, qty_add_sub_cancel, sub_antisymm; subtraction proved with exactly the two K2 call sites excluded and the negation proved by witness. Tie: every cell x units x magnitudes (incl. quotients of very different magnitudes) on both sides.'),
  'C07': ('Lean 4 proof: congruence of every unit-aware operation + unit-invariance of each raw-value site; metamorphic correspondence',
          'conv/add/mul/div/ratio/cmp congruence, grid_unit_invariant, signTest_unit_invariant, wormRow_unit_invariant, scaledValue_si, cmpRaw_scale. The end-to-end statement is checked metamorphically: each model run twice with every input re-expressed in another unit (round-robin over every unit list).'),
  'C08': ('Lean 4 proof: closed forms, boundary identities, odd symmetry of the torque and current laws (field reasoning) + boundary-stream correspondence',
@@ -36,7 +36,7 @@ CLAIMED = {
  'C10': ('Lean 4 proof: plan-then-write model of the three declaration functions; rejected => heap unchanged for any call sequence; post-conditions; efficiency-range iffs',
          'rejected_unchanged / declareAll_step, gear_post / worm_post / joint_post, gear_rejects / worm_rejects / joint_rejects, drives_eq_declared (forward links = last accepted call per master), accepted_ratio_pos / accepted_eff_range, wormEff_range_master / wormEff_range_wheel. Tie: random pools and call sequences (mostly-valid and malformed streams), every element snapshotted before/after every call on both sides.'),
  'C11': ('Lean 4 proof: exact grid laws on the unit-carrying time axis + robustness of the guarded floor under bounded rounding perturbation (and fragility of the arange count)',
-         'steps_exact, never_beyond, fresh_axis, continued_axis, stopped_axis_prefix, axis_spacing/strictMono, count_robust, guard_suffices, arange_fragile. Tie: sweep of decimal dt x n x units through the real Solver.run (physics patched out in-process) vs the grid model.'),
+         'steps_exact, never_beyond, fresh_axis, continued_axis, continued_axis_any_solver, stopped_axis_prefix, axis_spacing/strictMono, count_robust, guard_suffices, arange_fragile. Tie: sweep of decimal dt x n x units through the real Solver.run (physics patched out in-process) vs the grid model; several Solver objects used in turn on one powertrain.'),
  'C12': ('Lean 4 proof: schedule equivalence (run split by grid/loop append; rerun after reset by equality of the first compute) + negation witness for the unprovisoed statement',
          'run_split, run_split_units, stop_then_continue (early stop + continuation = uninterrupted run), rerun_eq (same or new solver) under the proviso that reset restores the pre-run duty cycle or the chain is not self-locking; K3_witness / rerun_full_false show the proviso is necessary (known finding K3). Tie: schedule pairs on the real code, whole histories vs model.'),
  'C13': ('Lean 4 proof: lock state machine invariants (never clamped without self-locking, sign safety, held still, release condition)',
